@@ -1,4 +1,6 @@
 """Concretisation of Grammar.tla lines and placements (C15, C09)."""
+import zlib
+
 
 LETTERS = "aBcDeFgHkM"
 DIGITS = "1234567890"
@@ -123,6 +125,10 @@ class FileBuilder:
         elif site == "methodDoc":
             name, item = "M%d" % n, "method"
             L += ["type R%d struct{}" % n, "", text, "func (r R%d) %s() {}" % (n, name), ""]
+        elif site == "ignoreFunc" and zlib.crc32(text.encode()) % 3 == 0:     # (a property of the line, so that a replay builds the same shape)
+            # a second directive line with another code in the same comment group: each line is a directive of its own
+            name, item = "G%d" % n, "ignore2"
+            L += [text, "// @ignore CTOR02", "func %s() {}" % name, ""]
         elif site == "ignoreFunc":
             name, item = "G%d" % n, "ignore"
             L += [text, "func %s() {}" % name, ""]
